@@ -594,6 +594,36 @@ void World::table_check(const std::string& op, int64_t touched)
     }
 }
 
+void World::table_sync_from_db()
+{
+    auto& T = *tstate;
+    auto tt = T.lib->track();
+    auto pt = T.lib->playlist();
+    auto et = T.lib->playlist_entity();
+    T.rows.clear();
+    T.lists.clear();
+    T.order.clear();
+    T.ents.clear();
+    Outcome o = call(FaultSpec{}, [&] {
+        for (auto id : tt.all_ids())
+            if (auto r = tt.get(id))
+                T.rows[id] = *r;
+        for (auto id : pt.all_ids())
+            if (auto r = pt.get(id))
+                T.lists[id] = {r->title, r->parent_list_id, r->is_persisted, r->is_explicitly_exported, r->last_edit_time};
+        auto roots = pt.root_ids();
+        T.order[0].assign(roots.begin(), roots.end());
+        for (auto& kv : T.lists)
+        {
+            auto kids = pt.child_ids(kv.first);
+            T.order[kv.first].assign(kids.begin(), kids.end());
+            T.ents[kv.first] = et.track_ids(kv.first);
+        }
+    });
+    if (o.threw)
+        note("table_sync_from_db threw " + o.exc + ": " + o.what);
+}
+
 bool World::exec_table_op(const Step& s)
 {
     if (s.op.size() < 2 || (s.op[1] != '_') || (s.op[0] != 't' && s.op[0] != 'p' && s.op[0] != 'e'))
@@ -618,6 +648,31 @@ bool World::exec_table_op(const Step& s)
         return it->first;
     };
     bool hostile = plan.cfg.gf.many_slots;  // blob shapes beyond the encodable domain
+    const bool atomic = plan.cfg.profile.compare(0, 6, "atomic") == 0;
+    if (atomic)
+    {
+        table_sync_from_db();
+        // the same probe is executed many times from the same state: its generated values must not drift
+        T.rowuniq = 5000 + (uint64_t)cur_step * 16;
+        model_off = true;  // L's forest / membership model does not follow table-API writes
+
+    }
+    // in the C14 enumeration the verdict is the public observation before / after, not the row model
+    auto finish = [&](const std::string& op, const Outcome& o, int64_t touched) {
+        if (!atomic)
+        {
+            table_check(op, touched);
+            return;
+        }
+        StepEffect e;
+        e.op = op;
+        e.out = o;
+        e.prop = "C14";
+        e.fault = s.fault;
+        e.raw = true;
+        e.expect_unchanged = o.threw;
+        after_step(e);
+    };
 
     if (s.op == "t_add")
     {
@@ -634,7 +689,7 @@ bool World::exec_table_op(const Step& s)
         }
         else
             probes.hit("t_add_rejected");
-        table_check("t_add", id);
+        finish("t_add", o, id);
         return true;
     }
     if (s.op == "t_update")
@@ -652,7 +707,7 @@ bool World::exec_table_op(const Step& s)
             T.rows[id] = e;
             probes.hit("t_update_ok");
         }
-        table_check("t_update", id);
+        finish("t_update", o, id);
         return true;
     }
     if (s.op == "t_rewrite")
@@ -668,7 +723,7 @@ bool World::exec_table_op(const Step& s)
         note("t_rewrite " + std::to_string(id) + (o.threw ? " -> threw " + o.exc : " -> ok"));
         if (o.threw)
             report("C18", "C18|t_rewrite|" + F + "|threw", "writing back a row just read threw " + o.exc + ": " + o.what);
-        table_check("t_rewrite", id);
+        finish("t_rewrite", o, id);
         return true;
     }
     if (s.op == "t_remove")
@@ -684,7 +739,7 @@ bool World::exec_table_op(const Step& s)
             for (auto& kv : T.ents)
                 kv.second.erase(std::remove(kv.second.begin(), kv.second.end(), id), kv.second.end());
         }
-        table_check("t_remove", 0);
+        finish("t_remove", o, 0);
         return true;
     }
     if (s.op == "t_setcol")
@@ -714,7 +769,7 @@ bool World::exec_table_op(const Step& s)
             }
             probes.hit("t_setcol_ok");
         }
-        table_check("t_setcol_" + std::string(c.name), id);
+        finish("t_setcol_" + std::string(c.name), o, id);
         return true;
     }
     if (s.op == "t_missing")
@@ -773,7 +828,7 @@ bool World::exec_table_op(const Step& s)
                 sibs.push_back(id);
             probes.hit(next ? "p_add_positioned" : "p_add_tail");
         }
-        table_check("p_add", 0);
+        finish("p_add", o, 0);
         return true;
     }
     if (s.op == "p_update")
@@ -852,7 +907,7 @@ bool World::exec_table_op(const Step& s)
                 sibs.push_back(id);
             probes.hit(move ? "p_move_ok" : "p_rename_ok");
         }
-        table_check("p_update", 0);
+        finish("p_update", o, 0);
         return true;
     }
     if (s.op == "p_remove")
@@ -882,7 +937,7 @@ bool World::exec_table_op(const Step& s)
             }
             probes.hit("p_remove_ok");
         }
-        table_check("p_remove", 0);
+        finish("p_remove", o, 0);
         return true;
     }
     if (s.op == "e_add" || s.op == "e_remove" || s.op == "e_clear")
@@ -897,16 +952,17 @@ bool World::exec_table_op(const Step& s)
             if (!o.threw)
                 mem.clear();
             note("e_clear " + std::to_string(l));
-            table_check("e_clear", 0);
+            finish("e_clear", o, 0);
             return true;
         }
         int64_t t = pick(T.rows, arg(1));
         if (!t)
             return true;
+        Outcome o;
         if (s.op == "e_add")
         {
             v2::playlist_entity_row row{v2::PLAYLIST_ENTITY_ROW_ID_NONE, l, t, T.uuid, 0, 0};
-            Outcome o = call(s.fault, [&] { et.add_back(row); });
+            o = call(s.fault, [&] { et.add_back(row); });
             note("e_add list " + std::to_string(l) + " track " + std::to_string(t) + (o.threw ? " -> threw " + o.exc : " -> ok"));
             if (!o.threw && std::find(mem.begin(), mem.end(), t) == mem.end())
                 mem.push_back(t);
@@ -914,12 +970,12 @@ bool World::exec_table_op(const Step& s)
         }
         else
         {
-            Outcome o = call(s.fault, [&] { et.remove(l, t); });
+            o = call(s.fault, [&] { et.remove(l, t); });
             note("e_remove list " + std::to_string(l) + " track " + std::to_string(t) + (o.threw ? " -> threw " + o.exc : " -> ok"));
             if (!o.threw)
                 mem.erase(std::remove(mem.begin(), mem.end(), t), mem.end());
         }
-        table_check(s.op, 0);
+        finish(s.op, o, 0);
         return true;
     }
     return false;
